@@ -285,11 +285,7 @@ def compare_setting(bs, g):
     return out
 
 
-def cex_of(m, ghosts, sym_i, extra):
-    g = ghosts[sym_i] if sym_i is not None else None
-    out = dict(kind='log', m=len(ghosts), symbolic_record=sym_i, **extra)
-    if g is None:
-        return out
+def record_json(m, g):
     ev = lambda z: hx.mval(m, z)
     tx = lambda s: ''.join(chr(ev(c) if not isinstance(c, int) else c) for c in sstr.chars_of(s))
 
@@ -297,7 +293,7 @@ def cex_of(m, ghosts, sym_i, extra):
         if isinstance(c, SObj):
             return (ev(zenum(c.attrs['suit'])) - 1) * 13 + ev(zint(c.attrs['rank'])) - 2
         return cardmod.card_idx(c)
-    out['record'] = dict(
+    return dict(
         dealer=ev(g['dealer']), vul=ev(g['vul']), passed_out=g['passed_out'],
         bid=None if g['bid'] is None else ev(g['bid']), status=ev(g['status']), declarer=ev(g['declarer']),
         names={k: tx(v) for k, v in g['names'].items()},
@@ -307,6 +303,13 @@ def cex_of(m, ghosts, sym_i, extra):
         play=None if g['play'] is None else [[ev(zenum(t.attrs['leader'])), [card(c) for c in t.attrs['cards']]] for t in g['play'].attrs['_history']],
         scores=[ev(zint(v)) for v in g['scores'].values()],
         dda=None if g['dda'] is None else [[ev(zint(v)) for v in d.values()] for d in g['dda'].values()])
+
+
+def cex_of(m, ghosts, sym_i, extra):
+    """every record of the list is written out (the fixed ones too), so that the replay writes exactly the same document"""
+    out = dict(kind='log', m=len(ghosts), symbolic_record=sym_i, **extra)
+    out['records'] = [record_json(m, g) for g in ghosts]
+    out['record'] = out['records'][sym_i] if sym_i is not None and ghosts else None
     return out
 
 
